@@ -11,6 +11,8 @@
 // so no loss is legitimate. In a phase MsgApp travels over the msgappv2 stream, MsgSnap over the pipeline
 // (POST), everything else over the message stream; if a db payload is given the LAST MsgSnap of the
 // last phase goes through SendSnapshot (snapshot sender / snapshot handler) instead.
+// With codec v2chaos the LAST phase is sent while the connections are being cut again and again: loss is
+// legitimate there; judged (chaos=ok) is that every message the receiver gets is one of those sent, at most as often.
 // Output: unreach=<n> | app=(..) other=(..) snap=(..) | ...   (per phase; app and other in arrival order,
 // snap sorted) and finally snapdb=<bytes the receiver's snapshot saver got | ->.
 package main
@@ -172,6 +174,7 @@ func runNet(c *kase) string {
 	}
 	parts := []string{}
 	expected := 0
+	stableUnreach := -1
 	for pi, ms := range phases {
 		if pi > 0 {
 			v2, _, msg, _ := rafthttp.VerifPeerWriters(send.tr, types.ID(c.local))
@@ -181,6 +184,13 @@ func runNet(c *kase) string {
 			}
 		}
 		before := recv.r.count()
+		if c.codec == "v2chaos" && pi == len(phases)-1 {
+			send.r.mu.Lock()
+			stableUnreach = send.r.unreach // reports during the churn are legitimate
+			send.r.mu.Unlock()
+			parts = append(parts, chaosPhase(send, recv, ms, before))
+			break
+		}
 		for i := range ms {
 			m := ms[i]
 			if useSendSnap && pi == len(phases)-1 && m.Type == raftpb.MsgSnap && lastSnap(ms) == i {
@@ -220,6 +230,9 @@ func runNet(c *kase) string {
 	send.r.mu.Lock()
 	un := send.r.unreach
 	send.r.mu.Unlock()
+	if stableUnreach >= 0 {
+		un = stableUnreach
+	}
 	sdb := "-"
 	if useSendSnap {
 		recv.sv.mu.Lock()
@@ -229,6 +242,42 @@ func runNet(c *kase) string {
 		recv.sv.mu.Unlock()
 	}
 	return fmt.Sprintf("unreach=%d | %s | snapdb=%s", un, strings.Join(parts, " | "), sdb)
+}
+
+// chaosPhase sends the messages while the sender's connections are being cut again and again. Loss is
+// legitimate here (raft retries); judged is that nothing is ALTERED or invented: whatever the receiving Raft
+// gets is, field for field, one of the messages sent, at most as often as it was sent.
+func chaosPhase(send, recv *netNode, ms []raftpb.Message, before int) string {
+	for i := range ms {
+		if i%3 == 1 {
+			send.srv.CloseClientConnections()
+		}
+		send.tr.Send([]raftpb.Message{ms[i]})
+		time.Sleep(300 * time.Microsecond)
+	}
+	// quiescence: nothing new for 300 ms
+	last, since := recv.r.count(), time.Now()
+	for time.Since(since) < 300*time.Millisecond {
+		time.Sleep(2 * time.Millisecond)
+		if n := recv.r.count(); n != last {
+			last, since = n, time.Now()
+		}
+	}
+	sent := map[string]int{}
+	for i := range ms {
+		sent[fmtMsg(&ms[i])]++
+	}
+	recv.r.mu.Lock()
+	got := append([]raftpb.Message{}, recv.r.got[before:]...)
+	recv.r.mu.Unlock()
+	for i := range got {
+		s := fmtMsg(&got[i])
+		if sent[s] == 0 {
+			return "chaos=altered-or-duplicated(" + s + ")"
+		}
+		sent[s]--
+	}
+	return "chaos=ok"
 }
 
 func lastSnap(ms []raftpb.Message) int {
@@ -244,7 +293,8 @@ func lastSnap(ms []raftpb.Message) int {
 // genNet: phases of one direction of traffic between two nodes: a well-formed msgappv2 sequence cut into
 // phases right before a message that would continue the cursor, interleaved with messages of other types
 // (message stream) and snapshots (pipeline); optionally one snapshot through SendSnapshot with a db payload.
-func genNet(r *hx.Rng) (local, remote uint64, phases [][]raftpb.Message, db string) {
+func genNet(r *hx.Rng) (codec string, local, remote uint64, phases [][]raftpb.Message, db string) {
+	codec = "v2"
 	var apps []raftpb.Message
 	for len(apps) < 2 || local == remote || local == 0 || remote == 0 {
 		var all []raftpb.Message
@@ -281,7 +331,9 @@ func genNet(r *hx.Rng) (local, remote uint64, phases [][]raftpb.Message, db stri
 				ph = append(ph, o)
 			}
 		}
-		if pi == len(conns)-1 && r.Chance(0.35) {
+		if pi == len(conns)-1 && r.Chance(0.3) {
+			codec = "v2chaos"
+		} else if pi == len(conns)-1 && r.Chance(0.5) {
 			o := genAnyMsg(r)
 			o.Type = raftpb.MsgSnap
 			o.Snapshot = genSnap(r)
